@@ -225,12 +225,13 @@ Record imon := mkIMon {
   m_stop_call : option (Z * Z * Z * bool * bool * Z); (* t0, call, bound, delete-requested, owned-at-call, caller goroutine *)
   m_wsend : Z;                 (* revision of the watch entry handed to the instance and not yet received (0 none / marker) *)
   m_seen_rev : Z;              (* revision of the record in the last piece of news the instance handled as a follower (watch entry or periodic read) *)
+  m_wstopped : list Z;         (* watchers of the instance that have been stopped: what they still deliver is handled by nobody *)
   m_ctx_early : list (Z * Z)   (* (token, time): the promotion context was seen done while the term's claim was still up; excused when the
                                   claim drops at that same instant (the cancellation is part of ending the term) *)
 }.
 #[export] Instance eta_imon : Settable _ :=
-  settable! mkIMon <m_promotes; m_demotes; m_bal; m_cb_run; m_ctxdone; m_term_ended; m_issues_at; m_issues_n; m_gauge; m_last_to; m_stop_call; m_wsend; m_seen_rev; m_ctx_early>.
-Definition imon0 := mkIMon 0 0 0 [] [] [] (-1) 0 0 (-1) None 0 0 [].
+  settable! mkIMon <m_promotes; m_demotes; m_bal; m_cb_run; m_ctxdone; m_term_ended; m_issues_at; m_issues_n; m_gauge; m_last_to; m_stop_call; m_wsend; m_seen_rev; m_wstopped; m_ctx_early>.
+Definition imon0 := mkIMon 0 0 0 [] [] [] (-1) 0 0 (-1) None 0 0 [] [].
 
 Definition mst := amap imon.
 Definition mon_of (m : mst) (i : Z) : imon := match aget m i with Some x => x | None => imon0 end.
@@ -265,7 +266,8 @@ Definition mapply (b b' : base) (m : mst) (te : Z * ev) : mst :=
   | EWSend i w n isnil rev val => mupd m i (fun x => x <| m_wsend := (if zb isnil || io_flag (inst_of b i) then 0 else rev) |>)
   | EWRecv i w n =>
       (* the entry is handled at once; as a follower the instance adopts the leader id it names *)
-      mupd m i (fun x => if negb (io_flag (inst_of b i)) && (0 <? m_wsend x) then x <| m_seen_rev := m_wsend x |> else x)
+      mupd m i (fun x => if negb (io_flag (inst_of b i)) && (0 <? m_wsend x) && negb (zmem w (m_wstopped x)) then x <| m_seen_rev := m_wsend x |> else x)
+  | EWStop i w => mupd m i (fun x => x <| m_wstopped ::= cons w |>)
   | ERet i op rk rev val =>
       match aget (b_pend b) op with
       | Some p => if (p_kind p =? kGet) && (rk =? oOk) && negb (io_flag (inst_of b i)) &&
